@@ -97,7 +97,7 @@ def exposed_backtick(s):
     return False
 
 
-D6 = re.compile(r'("(?:[^"\\]|\\.)*"|\\[^ \t\r\n]+)(?=[ \t\r\n]|//|/\*)', re.S)
+D6 = re.compile(r'("(?:[^"\\]|\\.)*"|\\[^ \t\r\n]+)(?=[ \t\r\n\f]|//|/\*)', re.S)
 
 
 def strip_cmt_str(s):
